@@ -1321,6 +1321,11 @@ impl Zeroconf {
                 debug!("Unregistering service during shutdown: {}", &fullname);
 
                 for intf in self.my_intfs.values() {
+                    // Goodbye is only for the interfaces where the service was announced.
+                    if info.get_status(intf.index) != ServiceStatus::Announced {
+                        continue;
+                    }
+
                     if let Some(sock) = self.ipv4_sock.as_ref() {
                         self.unregister_service(info, intf, &sock.pktinfo);
                     }
@@ -3692,6 +3697,11 @@ impl Zeroconf {
                 let mut timers = Vec::new();
 
                 for (if_index, intf) in self.my_intfs.iter() {
+                    // Goodbye is only for the interfaces where the service was announced.
+                    if info.get_status(*if_index) != ServiceStatus::Announced {
+                        continue;
+                    }
+
                     if let Some(sock) = self.ipv4_sock.as_ref() {
                         let packet = self.unregister_service(&info, intf, &sock.pktinfo);
                         // repeat for one time just in case some peers miss the message
